@@ -403,3 +403,8 @@ class ItemsDatasetC(ClassContract):
 
 
 CONTRACTS = [SliceDatasetC(), ConcatenateDatasetC(), ZipDatasetC(), KeyZipDatasetC(), ItemsDatasetC()]
+
+from contracts.copying import copy_variants  # noqa
+for _c in CONTRACTS:
+    if 'copy' not in _c.methods:
+        _c.methods = dict(_c.methods, copy=copy_variants())  # add_copy
